@@ -947,6 +947,90 @@ def case_history(p: dict) -> dict:
     return r.result(nontrivial=res.transitions > 0)
 
 
+# ----------------------------------------------------------------------------- (H) one potential object in long use
+LONG_SCAN = 640  # distinct temperatures of the scan (more than any internal "evaluate so many points, then tabulate" threshold I could find: 500)
+
+
+def longuse_cases() -> list[dict]:
+    out = []
+    for how in ("default-constructor", "own-Integrals-object"):
+        for kind in ("tachyonic+heavy", "light-only"):
+            out.append({"id": f"potential={how},scan={kind},temperatures={LONG_SCAN}", "how": how, "scan": kind})
+    return with_ids(out)
+
+
+def case_longuse(p: dict) -> dict:
+    """A potential that evaluates its integrals directly (built with the defaults / with its own Integrals()) is used the way a
+    phase tracer uses it - hundreds of evaluations at distinct temperatures with masses from tachyonic to heavy - and is then
+    asked for the limits the property states. The answers must be those of the defining integrals whatever the object did before."""
+    from WallGo.PotentialTools import EImaginaryOption
+
+    r = Rel(p["id"])
+    PT = _PT()
+    P = _pot_class()
+    pot = P(imaginaryOption=EImaginaryOption.PRINCIPAL_PART) if p["how"] == "default-constructor" else P(
+        integrals=PT.Integrals(), imaginaryOption=EImaginaryOption.PRINCIPAL_PART)
+    nb, nf = np.array([1.0, 3.0, 6.0]), np.array([12.0, 4.0])
+    one = np.ones(3), np.ones(2)
+
+    def V(xb, xf, T):
+        return float(np.asarray(pot.potentialOneLoopThermal((np.asarray(xb) * T * T, nb, 1.5 * one[0], one[0]), (np.asarray(xf) * T * T, nf, 1.5 * one[1], one[1]), T)))
+
+    probes = {"massless": ([0.0, 0.0, 0.0], [0.0, 0.0]), "light": ([0.05, 0.3, 1.0], [0.02, 0.5]), "tachyonic": ([-0.5, 0.3, -4.0], [0.02, 0.5]),
+              "heavy": ([400.0, 650.0, 900.0], [500.0, 700.0])}
+    temps = (0.7, 1.0, 60.0)
+
+    def observe():
+        return {f"{k}@T={T:g}": V(xb, xf, T) for k, (xb, xf) in probes.items() for T in temps}
+
+    def judge(tag, obs):
+        for T in temps:
+            sb = -(nb.sum() + 7.0 / 8.0 * nf.sum()) * math.pi**2 * T**4 / 90.0
+            # Stefan-Boltzmann: J_b(0) = -pi^4/45, J_f(0) = -7 pi^4/360; quad's own promise 1.49e-8 per integral (as in section potential)
+            r.close(f"{tag}:stefan-boltzmann@T={T:g}", obs[f"massless@T={T:g}"], sb, T**4 / (2 * math.pi**2) * (nb.sum() + nf.sum()) * 1.49e-8)
+            pref = T**4 / (2 * math.pi**2)
+            for k, (xb, xf) in probes.items():
+                ref = tol = 0.0
+                for kind, ns, xs in (("b", nb, xb), ("f", nf, xf)):
+                    for n, x in zip(ns, xs):
+                        re, _, err, pieces = O.quad_pieces(kind, float(x))
+                        ref += n * float(re)
+                        tol += n * tol_value(float(x), pieces, "re")
+                r.close(f"{tag}:{k}-vs-defining-integral@T={T:g}", obs[f"{k}@T={T:g}"], pref * ref, pref * tol + 64 * EPS * abs(pref * ref))
+
+    def tables():
+        return [bool(pot.integrals.Jb.hasInterpolation()), bool(pot.integrals.Jf.hasInterpolation())]
+
+    try:
+        first = observe()
+        judge("fresh", first)
+        r.true("fresh:no-table(direct evaluation was asked for)", tables() == [False, False], tables=tables())
+        # the scan: LONG_SCAN distinct temperatures, mass parameters fixed in absolute terms so that m^2/T^2 sweeps a wide range
+        if p["scan"] == "tachyonic+heavy":
+            m2b, m2f = np.array([-4.0, 30.0, 225.0]), np.array([0.5, 180.0])
+        else:
+            m2b, m2f = np.array([0.01, 0.3, 2.0]), np.array([0.02, 0.5])
+        for i in range(LONG_SCAN):
+            T = 1.0 + 3.0 * i / LONG_SCAN
+            pot.potentialOneLoopThermal((m2b, nb, 1.5 * one[0], one[0]), (m2f, nf, 1.5 * one[1], one[1]), T)
+        after = observe()
+        judge("after-scan", after)
+        r.true("after-scan:no-table(direct evaluation was asked for)", tables() == [False, False], tables=tables())
+        for k in first:  # direct evaluation is a pure function of its argument: identical bits
+            r.close(f"after-scan==fresh:{k}", after[k], first[k], 0.0)
+        # ... and the same through a freshly built object
+        pot2 = P(imaginaryOption=EImaginaryOption.PRINCIPAL_PART)
+        pot, keep = pot2, pot
+        fresh2 = observe()
+        pot = keep
+        for k in first:
+            r.close(f"after-scan==other-fresh-object:{k}", after[k], fresh2[k], 0.0)
+    except Exception as e:  # noqa: BLE001
+        r.true("no-exception", False, error=repr(e)[:400])
+    r.tag(f"longuse-{p['how']}", f"scan-{p['scan']}")
+    return r.result()
+
+
 # ----------------------------------------------------------------------------- driver
 SECTIONS = {
     "direct": case_direct,
@@ -958,6 +1042,7 @@ SECTIONS = {
     "continuity": case_continuity,
     "cw": case_cw,
     "history": case_history,
+    "long-use": case_longuse,
 }
 
 
@@ -997,6 +1082,8 @@ def run(ctx) -> None:
         ctx.add_bfs(st, tr, tr)
         ctx.note("history", {"depth": 3, "ops": [list(o) for o in H_OPS], "initial_mode_pairs": [list(i) for i in H_INITIAL],
                              "distinct_outcomes": [d.get("outcomes") for d in dets]})
+    if want("long-use"):
+        ctx.run_lattice("long-use", longuse_cases(), case_longuse, timeout=900)
     nrows = len(row_selection(ctx.tier))
     ctx.note("table_rows_checked_against_reference", {"per_table": nrows, "of": NROWS})
     ctx.note("table_rows_smoothness_tested", "all rows with x >= 5.2 (rows below are all compared with the reference in both tiers)")
